@@ -21,10 +21,14 @@ class Site:
         self.reached = 0
 
 
-def make_hook(buffers, sites):
+def make_hook(buffers, sites, extra_hook=None):
     """buffers: {root name: (bound term builder(ctx) -> term, description)}"""
     def hook(builder, fr, out, node, access, stmt):
         if access == "range-write":
+            return
+        if access == "node":
+            if extra_hook:
+                extra_hook(builder, fr, out, node, stmt, sites)
             return
         k = node.get("k")
         if k == "idx":
@@ -138,14 +142,14 @@ def linked_sort_choices(atom_sorts):
         yield full
 
 
-def decide(db, func, buffers, static_conds=None, max_depth=3, assume=None, fixed_atoms=None):
+def decide(db, func, buffers, static_conds=None, max_depth=3, assume=None, fixed_atoms=None, extra_hook=None):
     """Returns ({site_id: merged site}, number of models evaluated)."""
     variants = G.build_variants(db, func, static_conds or {}, max_depth=max_depth)
     merged = {}
     nmodels = 0
     for choice, _prog, _ctx, _b in variants:
         sites = []
-        hook = make_hook(buffers, sites)
+        hook = make_hook(buffers, sites, extra_hook)
         b = P.Builder(db, max_depth=max_depth, static_conds=static_conds or {}, oblige_hook=hook)
         b.choice = dict(choice)
         prog, ctx = b.build(func)
